@@ -336,3 +336,46 @@ def scan(prog, declared):
             continue
         findings.append((g, 'package-level %s is handed on to instances (%s) and refers to mutable state (%s): separate instances share it' % (gs, u['escapes'][0], why)))
     return findings, accepted, report
+
+
+# ---- sources of nondeterminism (assumption A2) ---------------------------------------------------------------------
+NONDET_CALLS = ('time.Now', 'time.Since', 'time.Until', 'math/rand.', 'crypto/rand.', 'os.Getenv', 'os.Getpid', 'runtime.')
+
+
+def nondeterminism(prog, cs):
+    """A2 says the code is a function of its inputs. Go has few ways not to be one in sequential code: the iteration order of
+    a map, the clock, random numbers, the environment. This scan finds every one of them in the module; each must be accepted
+    by a directive in the contract file of its package:
+      //@ maporder <Func> <reason>        the function ranges over a map and its result is proved not to depend on the order
+      //@ nondeterministic <Func> <reason> the function reads the clock / draws random numbers by design
+    returns (findings, accepted)"""
+    acc = getattr(cs, 'nondet', {})
+    findings, accepted = [], []
+    for fn, f in sorted(prog.funcs.items()):
+        if not fn.startswith(prog.module) and not fn.startswith('(*' + prog.module) and not fn.startswith('(' + prog.module):
+            continue
+        defs = {i['n']: i for b in f.blocks for i in b['instrs'] if 'n' in i}
+        kinds = {}
+        for b in f.blocks:
+            for i in b['instrs']:
+                if i['op'] == 'Range' and prog.under(i['x']['t'])['k'] == 'map':
+                    kinds.setdefault('maporder', 'ranges over a map (line %s)' % i.get('line'))
+                if i['op'] in ('Call', 'Defer', 'Go'):
+                    st = i['call'].get('static') or ''
+                    if st.endswith('.init'):
+                        continue        # a package initialiser calling the initialisers of the packages it imports
+                    if any(st.startswith(p_) or ('.' + p_) in st for p_ in NONDET_CALLS) or any(st.startswith(p_) for p_ in NONDET_CALLS):
+                        kinds.setdefault('nondeterministic', 'calls %s (line %s)' % (st, i.get('line')))
+                if i['op'] == 'Go':
+                    kinds.setdefault('nondeterministic', 'starts a goroutine (line %s)' % i.get('line'))
+                if i['op'] == 'Select':
+                    kinds.setdefault('nondeterministic', 'select statement (line %s)' % i.get('line'))
+        short = fn.rsplit('/', 1)[-1]
+        for kind, what in kinds.items():
+            key = (kind, fn)
+            if key in acc:
+                accepted.append('%s %s: %s; accepted: %s' % (kind, short, what, acc[key]))
+            else:
+                findings.append((fn, '%s %s and no `//@ %s` directive accepts it: its result may differ from run to run' % (short, what, kind)))
+    return findings, accepted
+
